@@ -166,6 +166,19 @@ func soilTempKernelStage(c *vh.Ctx, n int) {
 	}
 	saved := kept
 	c.Correspond("soiltemp.day", cases, impl, 1e-9, 1e-12, func(i int) interface{} { return saved[i] })
+	// the Lean translation of the CURRENT source of Soiltemp (regenerated on this run) on the same states
+	{
+		var sic []srcImpCase
+		for i := range saved {
+			if i >= c.N(1500, 20000) {
+				break
+			}
+			sc := saved[i]
+			g := newSoilTempState(&sc)
+			sic = append(sic, srcImpCase{Recv: map[string]interface{}{"g": g}, Params: map[string]interface{}{}, Call: func() { hermes.Soiltemp(g) }, Desc: sc})
+		}
+		correspondSrcImp(c, "Soiltemp", sic, 1e-9, 1e-12)
+	}
 	if nc := minI(len(saved), 800); nc > 0 && len(impl) == len(saved) { // the same cases in 8 goroutines at once
 		concurrentKernelStage(c, "soiltemp", impl[:nc], 8, 2, func(i int) string {
 			sc := saved[i]
